@@ -49,7 +49,7 @@ def generate(tier, rng):
 
 def api_cases(tier, rng):
     out = []
-    for rep in range(2 if tier == "quick" else 8):
+    for rep in range(3 if tier == "quick" else 10):
         for call in API_CALLS:
             for layout in ("C", "F"):
                 out.append(dict(stream="api", coq=False, call=call, layout=layout, seed=rng.randrange(10 ** 6)))
@@ -141,14 +141,35 @@ def run_api(case):
         f = lambda: [a.to_df(index=i, dim_to_columns=c, sparse=s) for i in (True, False) for c in (None, "good") for s in (False, True)]
         outputs_of = lambda res: []
     elif call == "from_df":
-        a = arr(ds)
-        df = a.to_df(index=bool(case["seed"] % 2))
+        # the table in one of the layouts the importer has to massage: letters as column labels, whole-number values, a
+        # one-item dimension left out, wide format with a letter-labelled id column, unlabelled columns, dimensions in the index
+        s1 = fd.Dimension(name="scenario", letter="s", items=["base"])
+        ds3 = fd.DimensionSet(dim_list=[t, g, s1])
+        variant = case["seed"] % 6
+        a = arr(ds3 if variant == 2 else ds)
+        if variant == 0:
+            df = a.to_df(index=False).rename(columns={"time": "t", "good": "g"})
+        elif variant == 1:
+            df = a.to_df(index=False)
+            df["value"] = df["value"].astype(int)
+        elif variant == 2:
+            df = a.to_df(index=False).drop(columns=["scenario"])
+        elif variant == 3:
+            df = a.to_df(index=False, dim_to_columns="good").rename(columns={"time": "t"})
+        elif variant == 4:
+            df = a.to_df(index=False).rename(columns={"time": "c0", "good": "c1"})
+        else:
+            df = a.to_df(index=True)
+        dims_used = ds3 if variant == 2 else ds
         inputs = [df]
-        f = lambda: fd.FlodymArray.from_df(dims=ds, df=df)
+        f = lambda: fd.FlodymArray.from_df(dims=dims_used, df=df)
         outputs_of = lambda res: [res]
     elif call == "set_values_from_df":
         a, b = arr(ds), arr(ds)
         df = b.to_df(index=False)
+        if case["seed"] % 2:
+            df = df.rename(columns={"time": "t", "good": "g"})
+            df["value"] = df["value"].astype(int)
         inputs = [df]
         f = lambda: a.set_values_from_df(df)
         outputs_of = lambda res: [a]
